@@ -150,8 +150,11 @@ func runY(t *testing.T, ch *vs.Choices, prop, tier string, render bool) *vs.RunO
 				sim.SetMaskByFile(0, 1, 0, 1, nil)
 			} else {
 				sim.Strategy = vs.NewStrategy(ch, []string{"random", "sticky", "starve"})
-				sim.SetMaskByFile(0, 1, 0, 1, nil) // mandatory points only: a legitimate 1000-call cycle stays far below the cap
-				sim.StepCap = 200000
+				// mandatory points plus one yield per RunTask call: a legitimate 1000-call cycle stays far below the
+				// cap, and a runaway recursion through task-call commands (which has no blocking primitive at all
+				// when there is no concurrency limit) still hands control back to the scheduler
+				sim.SetMaskByFile(0, 1, 0, 1, []string{"RunTask: t, err := e.FastCompiledTask(call)"})
+				sim.StepCap = 40000 // a legitimate 1000-call cycle needs about 5000-15000 steps
 			}
 			out.Strategy = sim.Strategy.Name()
 			vs.S = sim
